@@ -155,10 +155,16 @@ func replay() {
 		case "ENTRY":
 			emitEntry(id, unhx(f[2]))
 		case "CODEC":
+			if len(f) == 6 && f[2] == "typed" {
+				replayTyped(id, f[3], unhx(f[4]), unhx(f[5]))
+				continue
+			}
 			if len(f) != 5 {
 				continue
 			}
 			replayCodec(id, f[2], unhx(f[3]), unhx(f[4]))
+		case "STREAM":
+			replayStream(id, f)
 		case "CLI":
 			// CLI id pkg stdin n files…
 			if len(f) < 5 {
